@@ -259,6 +259,10 @@ def finish(pid, tier, res, t0, level="model_checking", rule="", assumptions=(), 
     os.makedirs(evdir, exist_ok=True)
     with open(os.path.join(evdir, pid + ".json"), "w") as f:
         json.dump(ev, f, indent=1)
+    # evidence/<id>.json is the latest run of either tier; a copy per tier is kept next to it (evidence/by_tier/<tier>/<id>.json)
+    os.makedirs(os.path.join(evdir, "by_tier", tier), exist_ok=True)
+    with open(os.path.join(evdir, "by_tier", tier, pid + ".json"), "w") as f:
+        json.dump(ev, f, indent=1)
     print("%s %s: states=%s transitions=%s executions=%s outcomes=%d caps=%d wall=%.1fs" % (
         pid, tier, st.get("states", 0), st.get("transitions", 0), st.get("executions", 0),
         len(res.outcomes), len(res.caps), time.time() - t0))
